@@ -253,12 +253,14 @@ def main():
         "engines": [
             {"name": "E-STORE", "path": "harness/c08 harness/c10 harness/c16 harness/refs", "serves_properties": ["C08", "C10", "C16"],
              "kind_free_text": "real store.Store / Txn / VersionedStore / SMT driven by generated operation sequences, compared online with reference models"},
-            {"name": "E-BFT", "path": "harness/bftsim", "serves_properties": ["C01", "C14", "C15"],
+            {"name": "E-BFT", "path": "harness/bftsim", "serves_properties": ["C01", "C15"],
              "kind_free_text": "virtual-time discrete-event simulator around N real bft.BFT instances with a network adversary and Byzantine actors"},
-            {"name": "E-NODE", "path": "harness/node", "serves_properties": ["C02", "C03", "C04", "C05", "C06", "C07", "C09", "C11", "C12", "C13", "C20"],
+            {"name": "E-NODE", "path": "harness/node", "serves_properties": ["C02", "C03", "C04", "C05", "C06", "C07", "C09", "C11", "C12", "C13", "C14", "C20"],
              "kind_free_text": "full node from canopy's own constructors (controller+fsm+store) with a harness root-chain manager and chain driver"},
             {"name": "E-P2P", "path": "harness/c17 harness/c18", "serves_properties": ["C17", "C18"],
              "kind_free_text": "real EncryptedConn / MultiConn over in-memory pipes with a fault-injecting interposer; race detector"},
+            {"name": "E-CODEC", "path": "harness/c19 harness/c19util", "serves_properties": ["C19"],
+             "kind_free_text": "reflection- and wire-level generators feeding canopy's real sign-bytes, key constructors, decoders and first-touch handlers, hostile inputs in crash-isolated child processes"},
         ],
         "checks": checks,
         "not_applicable": na,
